@@ -179,7 +179,7 @@ def _check_specific_rule_ignore(line: str, rule_id: str) -> bool:
     space_match = re.search(r"ignore-file\s+([^\s#]+(?:\s+[^\s#]+)*)", line, re.IGNORECASE)
     if space_match:
         return check_space_separated_rules(space_match.group(1), rule_id)
-    return False
+    return check_general_ignore(line)
 
 
 def _check_specific_rule_in_line(code: str, rule_id: str) -> bool:
@@ -190,7 +190,8 @@ def _check_specific_rule_in_line(code: str, rule_id: str) -> bool:
     space_match = re.search(r"ignore\s+([^\s#]+(?:\s+[^\s#]+)*)", code, re.IGNORECASE)
     if space_match:
         return check_space_separated_rules(space_match.group(1), rule_id)
-    return "ignore-all" in code.lower()
+    code_lower = code.rstrip().lower()
+    return "ignore-all" in code_lower or code_lower.endswith(("thailint: ignore", "design-lint: ignore"))
 
 
 def _has_file_ignore_in_content(file_content: str, rule_id: str | None) -> bool:
